@@ -4,6 +4,7 @@
 //! (Run natively the client requests are no-ops and every count is 0.)
 use crate::*;
 use curve25519_dalek::traits::{MultiscalarMul, VartimeMultiscalarMul};
+#[cfg(feature = "ed")]
 use sha2::Sha512;
 use std::sync::atomic::{AtomicU64, Ordering};
 
@@ -120,10 +121,13 @@ pub fn run(op: &str, e: &Value, ctx: &mut Ctx) -> Result<Value, String> {
                 "ris.multiscalar_mul" => { let ss = [sk, sk2]; undefine(&ss, 64); let ps = [pub_ris, pub_ris + pub_ris];
                     let (r, k) = window(|| RistrettoPoint::multiscalar_mul(ss.iter(), ps.iter())); n = k; define(&r, 160); out = r.compress().to_bytes().to_vec(); }
                 // ---- Ed25519
+                #[cfg(feature = "ed")]
                 "sig.keygen" => { secret!(s32, 32); let (r, k) = window(|| { let sk = ed25519_dalek::SigningKey::from_bytes(&s32); let vk = sk.verifying_key().to_bytes(); std::mem::forget(sk); vk });
                     n = k; define(&r, 32); out = r.to_vec(); }
+                #[cfg(feature = "ed")]
                 "sig.sign" => { secret!(s32, 32); let (r, k) = window(|| { use ed25519_dalek::Signer; let sk = ed25519_dalek::SigningKey::from_bytes(&s32); let s = sk.sign(&publ).to_bytes(); std::mem::forget(sk); s });
                     n = k; define(&r, 64); out = r.to_vec(); }
+                #[cfg(feature = "ed")]
                 "sig.sign_prehashed" => { secret!(s32, 32); let (r, k) = window(|| { use sha2::Digest; let sk = ed25519_dalek::SigningKey::from_bytes(&s32);
                         let s = sk.sign_prehashed(Sha512::new().chain_update(&publ), Some(b"ctx")).map(|s| s.to_bytes()).unwrap_or([0u8; 64]); std::mem::forget(sk); s });
                     n = k; define(&r, 64); out = r.to_vec(); }
